@@ -1,0 +1,73 @@
+//go:build verif
+
+// Contracts for the acv verifier (/verif). Comment-only file: no executable code.
+
+package logging
+
+// The ratchet: tag = H(HMAC(key, entry ++ previous)), previous' = HMAC(...), key' = H(key), newChain = (previous == nil).
+// Producer and verifier run this same function, so an intact sequence verifies and any change to an entry, the order or
+// the key changes some (key, previous, entry) triple (collision freedom of SHA-256/HMAC is assumed, not modelled).
+//@ func calculateHash(input []byte) (out []byte)
+//@   props C20 C14
+//@   safety
+//@   ensures len(out) == 32 && fresh(out)
+
+//@ func (f *LogEntryIntegrityCalculator) calculateHmac(input []byte) (mac []byte)
+//@   props C20
+//@   ensures mac-over-entry-then-previous: called(hash.Hash.Write#0) && called(hash.Hash.Write#1) && sameslice(mac, ret(hash.Hash.Sum)[0])
+//@   at call hmac.New : assert sameslice(arg[1], f.cryptoKey)
+//@   at call hash.Hash.Write#0 : assert recv == ret(hmac.New)[0] && sameslice(arg[0], input)
+//@   at call hash.Hash.Write#1 : assert recv == ret(hmac.New)[0] && sameslice(arg[0], f.previousLogEntryIntegrityCheck)
+//@   at call hash.Hash.Sum : assert recv == ret(hmac.New)[0] && called(hash.Hash.Write#1)
+
+//@ func (f *LogEntryIntegrityCalculator) CalculateIntegrityCheck(input []byte) (tag []byte, newChain bool, err error)
+//@   props C20 C17
+//@   noinline calculateHmac calculateHash firstCheck
+//@   ensures tag-is-hash-of-mac: err == nil && sameslice(tag, ret(calculateHash#0)[0])
+//@   ensures previous-advances: sameslice(f.previousLogEntryIntegrityCheck, ret(LogEntryIntegrityCalculator.calculateHmac)[0])
+//@   ensures key-ratchets: sameslice(f.cryptoKey, ret(calculateHash#1)[0])
+//@   ensures new-chain-flag: newChain == ret(LogEntryIntegrityCalculator.firstCheck)[0]
+//@   ensures unlocked: called(Mutex.Unlock)
+//@   at call LogEntryIntegrityCalculator.firstCheck : assert called(Mutex.Lock) && !called(LogEntryIntegrityCalculator.calculateHmac)
+//@   at call LogEntryIntegrityCalculator.calculateHmac : assert sameslice(arg[0], input) && called(Mutex.Lock)
+//@   at call calculateHash#0 : assert sameslice(arg[0], ret(LogEntryIntegrityCalculator.calculateHmac)[0])
+//@   at call calculateHash#1 : assert sameslice(arg[0], old(f.cryptoKey))
+
+//@ func (f *LogEntryIntegrityCalculator) firstCheck() (first bool)
+//@   props C20
+//@   safety
+//@   ensures first == (f.previousLogEntryIntegrityCheck == nil)
+//@   modifies nothing
+
+//@ func (f *LogEntryIntegrityCalculator) ResetCryptoKey(key []byte)
+//@   props C20 C17
+//@   noinline calculateHash
+//@   ensures chain-restarts: f.previousLogEntryIntegrityCheck == nil && sameslice(f.cryptoKey, ret(calculateHash)[0])
+//@   ensures unlocked: called(Mutex.Unlock)
+//@   at call calculateHash : assert sameslice(arg[0], key) && called(Mutex.Lock)
+
+// Verifier: every parsed entry is fed to the same ratchet with exactly the parsed raw data; a tag mismatch stops
+// verification with ErrIntegrityNotMatch at that entry; a new chain after an unterminated one is ErrMissingEndOfChain;
+// a new chain resets the ratchet with the verifier's key.
+//@ func (v *IntegrityCheckVerifier) VerifyIntegrityCheck(source *LogEntrySource) (bad *LogEntryInfo, err error)
+//@   props C20
+//@   noinline *
+//@   loop 0 invariant true
+//@          step mismatch-stops: itercalled(subtle.ConstantTimeCompare) ==> ret(subtle.ConstantTimeCompare)[0] != 0
+//@          step verified-entry-recorded: itercalled(subtle.ConstantTimeCompare) ==> v.lastVerifiedEntry == ret(LogParser.ParseEntry)[0]
+//@   at call LogEntryIntegrityCalculator.CalculateIntegrityCheck : assert recv == v.integrityCalculator && sameslice(arg[0], ret(LogParser.ParseEntry)[0].RawData) && ret(LogParser.ParseEntry)[1] == nil
+//@   at call subtle.ConstantTimeCompare : assert sameslice(arg[0], ret(LogParser.ParseEntry)[0].Integrity) && sameslice(arg[1], ret(LogEntryIntegrityCalculator.CalculateIntegrityCheck)[0]) && ret(LogEntryIntegrityCalculator.CalculateIntegrityCheck)[2] == nil
+//@   at call LogEntryIntegrityCalculator.ResetCryptoKey : assert recv == v.integrityCalculator && sameslice(arg[0], v.cryptoKey) && ret(LogParser.ParseEntry)[0].IsNewChain && (v.lastVerifiedEntry == nil || v.lastVerifiedEntry.IsEndChain)
+
+// Parsers of protected log lines: total on arbitrary text (C14); the protected data is the text before the integrity field.
+//@ func (parser *CefLogParser) ParseEntry(rawData string) (p *ParsedLogEntry, err error)
+//@   props C14 C20
+//@   safety
+//@   ensures (err == nil) <==> (p != nil)
+//@   at call strings.Split : assert arg[0] == rawData && arg[1] == DataSplitToken
+
+//@ func (parser *PlaintextLogParser) ParseEntry(rawData string) (p *ParsedLogEntry, err error)
+//@   props C14 C20
+//@   safety
+//@   ensures (err == nil) <==> (p != nil)
+//@   at call strings.Split : assert arg[0] == rawData && arg[1] == DataSplitToken
